@@ -13,6 +13,13 @@ Op lines (integers; a pod object is 7 tokens `id req0 req1 np hasNode term ign`)
      local equations (KoordVerif.C01.checkInv, sound by checkInv_sound) in both dimensions; the harness expects 1.
   padd <q> <pod> | pupd <newQ> <oldQ> <newpod> <oldpod> | pdel <q> <pod>
   reserve <q> <pod> | unreserve <q> <pod> | migrate <out> <in> <pod>
+  conc 1                                                                 start of a concurrent batch: the following op lines were issued from
+     concurrent goroutines (one per pod, distinct pods, pod-level ops only) and are listed in the canonical order "script of
+     pod 1, script of pod 2, ...".  They are applied to both dimension states as usual but NO observation block is printed
+     (nothing is observed in the middle of a batch); `conc 1` itself prints nothing.
+  conc 0                                                                 end of the batch (all goroutines joined, quiescent): observation
+     blocks are switched on again and ONE state block is printed (same format as after an op) - the figures the property
+     demands at quiescence = those of the canonical sequential order.
 After every op: `root d used npUsed request npRequest` per dimension, then per non-root quota (sorted by name)
   `q name parent isParent lend npods (id assigned)*` and per dimension
   `d k name max min used npUsed request npRequest childRequest selfUsed selfNpUsed selfRequest selfNpRequest`, then `end`.
@@ -88,20 +95,22 @@ def applyOp (s : State) : Option Op → State
   | some op => step s op
 
 def runCase (lines : List String) : List String :=
-  let rec go (ls : List String) (strict : Bool) (s0 s1 : State) (acc : List (List String)) : List (List String) :=
+  let rec go (ls : List String) (strict conc : Bool) (s0 s1 : State) (acc : List (List String)) : List (List String) :=
     match ls with
     | [] => acc
     | l :: t =>
       match toks l with
-      | ["mode", m] => go t (m == "1") s0 s1 acc
+      | ["mode", m] => go t (m == "1") conc s0 s1 acc
+      | ["conc", "1"] => go t strict true s0 s1 acc
+      | ["conc", "0"] => go t strict false s0 s1 (showState strict s0 s1 :: acc)
       | _ =>
         match parseOp 0 l, parseOp 1 l with
         | some o0, some o1 =>
           let s0' := applyOp s0 o0
           let s1' := applyOp s1 o1
-          go t strict s0' s1' (showState strict s0' s1' :: acc)
+          go t strict conc s0' s1' (if conc then acc else showState strict s0' s1' :: acc)
         | _, _ => ["bad-op"] :: acc
-  (go lines false init init []).reverse.flatten
+  (go lines false false init init []).reverse.flatten
 
 end KoordVerif.C01
 
